@@ -274,9 +274,9 @@ def run(ctx):
                 out.append(s)
         return out
 
-    singles_all = gen("C13_gen_single.cfg", 4000 if thorough else 1200, "single options")
+    singles_all = gen("C13_gen_single.cfg", 3000 if thorough else 1200, "single options")
     pairs_all = gen("C13_gen_pairs.cfg", None, "pairs of layer adding / removing options")
-    rand_all = gen("C13_gen_rand.cfg", 7000 if thorough else 330, "random programs")
+    rand_all = gen("C13_gen_rand.cfg", 4000 if thorough else 330, "random programs")
     if len(pairs_all) < 2000 or len(rand_all) < 200:
         raise vlib.ToolError("generator produced too few scenarios (%d pairs, %d random)" % (len(pairs_all), len(rand_all)))
 
@@ -289,7 +289,7 @@ def run(ctx):
         k = optkey(s["prog"][0]) if s["prog"] else ("-", s["place"], s["src"], 0)
         by_opt.setdefault(k, []).append(s)
     for k in sorted(by_opt):
-        chosen += by_opt[k] if thorough else [rng.choice(by_opt[k])]
+        chosen += vlib.sample(rng, by_opt[k], 25) if thorough else [rng.choice(by_opt[k])]
     n_single = len(chosen)
     vocabulary = sorted({k[0] for k in by_opt})
     # every pair that mixes adding and removing layers (thorough: every pair on every image of the pairs universe)
@@ -303,7 +303,7 @@ def run(ctx):
         chosen += by_pair[k] if thorough else [rng.choice(by_pair[k])]
     if thorough:
         mixed = {id(s) for v in by_pair.values() for s in v}
-        chosen += [s for s in pairs_all if id(s) not in mixed]
+        chosen += vlib.sample(rng, [s for s in pairs_all if id(s) not in mixed], 1200)
     n_pairs = len(chosen) - n_single
     chosen += rand_all
     scns = [concretize(s, rng) for s in chosen]
@@ -355,7 +355,7 @@ def run(ctx):
     for ti, lst in bad.items():
         t = traces[ti]
         s = byid[t["id"]]
-        ck = (pstr(s["prog"]), s["cls"], s["src"], s["img"]["shape"], s["img"]["ext"], s["img"]["data"])
+        ck = (pstr(s["prog"]), s["cls"], s["src"], s["img"]["shape"], s["img"]["ext"], s["img"]["data"], s["noop"])
         for ei, ob in lst:
             groups.setdefault(ck, {}).setdefault(classify(t, ei, ob), []).append((ti, ei))
     # minimise: sub-programs (subsequences, up to 3 options) of one representative per scenario class, smallest first
